@@ -139,6 +139,42 @@ func observeLeak(c leakCase) *leakObs {
 	o.Base = runtime.NumGoroutine()
 	t0 := time.Now()
 	switch {
+	case c.Kind == "conc-mixed":
+		// calls of DIFFERENT widths in one process, narrow ones that run to completion next to wide ones that return early while
+		// most of their workers are still busy: whatever a call leaves behind (buffers, channels, workers) meets the next call
+		st := micro.EmptyState()
+		widths := []int{3, 9, 2, 12, 5, 1, 7, 16}
+		work := func(d time.Duration) micro.Goal {
+			return func(s *micro.State) *micro.StreamOfStates { time.Sleep(d); return micro.SuccessO(s) }
+		}
+		for k := 0; k < c.Calls; k++ {
+			n := widths[(k+c.Variant)%len(widths)]
+			gs := make([]micro.Goal, n)
+			for j := range gs {
+				gs[j] = work(time.Duration(200+137*((j+k)%9)) * time.Microsecond)
+			}
+			if k%2 == 1 { // an early exit: one argument fails at once
+				gs[(k/2)%n] = micro.FailureO
+			}
+			var g micro.Goal
+			switch (c.N + k/8) % 4 {
+			case 0:
+				g = concurrent.ConjPlus(gs...)
+			case 1:
+				g = concurrent.ConjPlusZzz(gs...)
+			case 2:
+				g = concurrent.DisjPlus(gs...)
+			default:
+				g = concurrent.DisjPlusNoOrder(gs...)
+			}
+			ss := g(st)
+			if c.Take != 0 { // read the first cells (a suspension is forced, an answer is taken)
+				for i := 0; i < 3 && ss != nil; i++ {
+					_, ss = ss.CarCdr()
+				}
+			}
+		}
+		o.How = "returned"
 	case strings.HasPrefix(c.Kind, "conc-"):
 		st := micro.EmptyState()
 		for k := 0; k < c.Calls; k++ {
@@ -261,6 +297,35 @@ func observeLeak(c leakCase) *leakObs {
 				ch = gomini.Run(rctx, gomini.NewState(), func(q *int) gomini.Goal { return gwide(q, c.Variant) })
 			} else if c.Kind == "gomini-infinite" {
 				ch = gomini.Run(rctx, gomini.NewState(), func(q *int) gomini.Goal { return gfives(q) })
+			} else if c.Kind == "gomini-traced" {
+				// a search whose goals also READ the state they are given through its exported methods (String, as a tracing goal
+				// does) while sibling branches go on introducing variables; the start state binds one variable to another one
+				// (variant even: to the variable's key, State.Set(a, Var); odd: to the variable's pointer)
+				st := gomini.NewState()
+				var a, b *concato.Node
+				st, a = gomini.NewVar[*concato.Node](st)
+				st, b = gomini.NewVar[*concato.Node](st)
+				av, _ := st.CastVar(a)
+				bv, _ := st.CastVar(b)
+				if c.Variant%2 == 0 {
+					st = st.Set(av, bv)
+				} else {
+					st = st.Set(av, b)
+				}
+				var traced atomic.Int64
+				trace := func(ctx context.Context, s *gomini.State, ss gomini.Stream) {
+					traced.Add(int64(len(s.String())))
+					ss.Write(ctx, s)
+				}
+				ch = gomini.Run(rctx, st, func(q *concato.Node) gomini.Goal {
+					return gomini.ExistO(func(y *concato.Node) gomini.Goal {
+						return gomini.ExistO(func(z *concato.Node) gomini.Goal {
+							return gomini.DisjO(gomini.ConjO(trace, concato.ConcatO(q, y, z)), gomini.ConjO(trace, concato.ConcatO(y, z, q)),
+								gomini.ConjO(concato.ConcatO(z, q, y), trace))
+						})
+					})
+				})
+				time.Sleep(time.Duration(50+50*k) * time.Millisecond)
 			} else if c.Kind == "gomini-elserec" {
 				// a relation that recurses through the ELSE branch (eta-expanded, as recursive Go relations are):
 				//   r(q) = if q = 1 and q = 2 then succeed else r(q)      - a silent infinite search; then cancel
@@ -340,6 +405,8 @@ func genLeakCases(cfg *Config, prop string) []leakCase {
 				cases = append(cases, leakCase{Kind: k, N: n, Calls: 40, Variant: n})
 			}
 		}
+		cases = append(cases, leakCase{Kind: "conc-mixed", N: 0, Calls: 64, Variant: 0}, leakCase{Kind: "conc-mixed", N: 1, Calls: 64, Variant: 3, Take: 1},
+			leakCase{Kind: "conc-mixed", N: 2, Calls: 48, Variant: 1, Take: 1}, leakCase{Kind: "conc-mixed", N: 0, Calls: 200, Variant: 5, Take: 1})
 		for _, take := range []int{0, 1, 3, -1} {
 			for _, max := range []int{0, 3} {
 				cases = append(cases, leakCase{Kind: "gomini-finite", N: 6, Take: take, Max: max, Calls: 5})
@@ -355,6 +422,7 @@ func genLeakCases(cfg *Config, prop string) []leakCase {
 		cases = append(cases, leakCase{Kind: "gomini-ifte", Take: 1, Max: 2, Calls: 6, Variant: 0}, leakCase{Kind: "gomini-ifte", Take: 2, Max: 0, Calls: 4, Variant: 1},
 			leakCase{Kind: "gomini-ifte", Take: 0, Max: 3, Calls: 4, Variant: 1},
 			leakCase{Kind: "gomini-elserec", Take: 0, Max: 0, Calls: 3}, leakCase{Kind: "gomini-elserec", Take: 0, Max: 3, Calls: 2},
+			leakCase{Kind: "gomini-traced", Take: 3, Max: 0, Calls: 3, Variant: 0}, leakCase{Kind: "gomini-traced", Take: 0, Max: 4, Calls: 2, Variant: 1},
 			leakCase{Kind: "gomini-open-streams", Take: 0, Max: 0, Calls: 5, Variant: 0}, leakCase{Kind: "gomini-open-streams", Take: 1, Max: 2, Calls: 5, Variant: 1})
 	} else {
 		for _, max := range []int{1, 2, 3, 5, 100} {
@@ -375,7 +443,13 @@ func genLeakCases(cfg *Config, prop string) []leakCase {
 	}
 	for len(cases) < cfg.N {
 		if prop == "C11" {
-			switch r.Intn(5) {
+			switch r.Intn(6) {
+			case 5:
+				if r.Intn(3) == 0 {
+					cases = append(cases, leakCase{Kind: "gomini-traced", Take: r.Intn(5), Max: pick(r, []int{0, 0, 3, 6}), Calls: 1 + r.Intn(3), Variant: r.Intn(2)})
+					continue
+				}
+				cases = append(cases, leakCase{Kind: "conc-mixed", N: r.Intn(4), Calls: 30 + r.Intn(90), Variant: r.Intn(8), Take: r.Intn(2)})
 			case 0:
 				cases = append(cases, leakCase{Kind: pick(r, []string{"conc-conj", "conc-conjzzz", "conc-disj", "conc-noorder"}), N: 2 + r.Intn(5), Calls: 10 + r.Intn(40), Variant: r.Intn(4)})
 			case 1:
